@@ -3,13 +3,14 @@ module verifharness
 go 1.26
 
 require (
+	bazil.org/fuse v0.0.0-20230120002735-62a210ff1fd5
 	github.com/anishathalye/porcupine v1.3.0
 	github.com/jech/storrent v0.0.0
+	golang.org/x/net v0.28.0
 )
 
 require (
 	github.com/zeebo/bencode v1.0.0 // indirect
-	golang.org/x/net v0.28.0 // indirect
 	golang.org/x/sys v0.24.0 // indirect
 )
 
